@@ -663,7 +663,7 @@ let compile_path (idx : int) (line : string) : string =
          Buffer.add_string buf (let hx = hex_of_bytes (List.filteri (fun j _ -> j < consumed) padded) in if hx = "-" then "" else hx);
          s := s'
      | _ -> failwith (Printf.sprintf "path %d: the model cannot emit %s" idx name))) items;
-  let src = Buffer.contents buf in
+  let src = Buffer.contents buf ^ g "tail" "" in
   Printf.sprintf "id=p%d v=%d min=%d max=%d rate=%s unsafe=%s ext=%s buf=%s muts=%s src=bytes:%s"
     idx (int_of_n (vnum v)) n n (Hashtbl.find h "rate") (Hashtbl.find h "unsafe") (Hashtbl.find h "ext") (Hashtbl.find h "buf")
     (Hashtbl.find h "muts") (if src = "" then "-" else src)
@@ -750,7 +750,20 @@ let () =
            let h = kv c.spec in
            let cfg = config_of h in
            List.iter (fun l -> match words l with
-             | ["RESULT"; "ok"; hx] -> output_props c.id cfg (is_safe cfg) (bytes_of_hex hx) ""
+             | ["RESULT"; "ok"; hx] ->
+                 let out = bytes_of_hex hx in
+                 output_props c.id cfg (is_safe cfg) out "";
+                 (* a C12 witness input: the opcode named in the id must occur, framed exactly when asked *)
+                 (match String.split_on_char '.' c.id with
+                  | ["w"; _; flags; name] ->
+                      let o = List.find (fun x -> cp_name x = name) all_opcodes in
+                      if not (occurs o out) then
+                        Printf.printf "PROP %s C12 fail the witness input of %s does not make the implementation emit it (the model does: Properties/C12.v)\n" c.id name;
+                      let framed = flags.[2] = '1' in
+                      let has_frame = occurs FRAME out in
+                      if framed <> has_frame then
+                        Printf.printf "PROP %s C12 fail FRAME coin %b but the output is %sframed\n" c.id framed (if has_frame then "" else "un")
+                  | _ -> ())
              | "RESULT" :: ("panic" | "err") :: rest -> Printf.printf "PROP %s C09 fail %s\n" c.id (String.concat " " rest)
              | _ -> ()) c.lines
          with e -> Printf.printf "DIFF %s step=0 driver-exception %s\n" c.id (Printexc.to_string e))) (read_cases path)
@@ -795,6 +808,24 @@ let () =
         Printf.printf "VOCAB v=%d %s\n" vi
           (String.concat "," (List.map (fun o -> Printf.sprintf "%02x:%s:%d" (int_of_n (ref_code o)) (cp_name o) (int_of_n (ref_proto o)))
              (List.filter (fun o -> int_of_n (ref_proto o) <= vi) all_opcodes)))) [0; 1; 2; 3; 4; 5]
+  | [_; "witness"] ->
+      (* C12: the level-F witness inputs (WitnessF.witness_bytes; Properties/C12.v proves that the model's output on
+         them contains the opcode) as harness case lines with DEFAULT settings *)
+      List.iter (fun vi ->
+        let v = version_of_int vi in
+        List.iter (fun (ext, buf) ->
+          List.iter (fun framed ->
+            if framed = false || vi >= 4 then
+              List.iter (fun o ->
+                let c = default_cfg v ext buf in
+                if List.exists (fun x -> op_eqb x o) (row v) && not (driver_emitted o) && flag_ok c o then
+                  match witness_bytes (the_env ()) v ext buf framed o with
+                  | Some w ->
+                      Printf.printf "id=w.%d.%d%d%d.%s v=%d min=60 max=300 rate=3fb999999999999a unsafe=0 ext=%d buf=%d muts=- src=bytes:%s\n"
+                        vi (if ext then 1 else 0) (if buf then 1 else 0) (if framed then 1 else 0) (cp_name o) vi
+                        (if ext then 1 else 0) (if buf then 1 else 0) (hex_of_bytes w)
+                  | None -> Printf.printf "NOWITNESS v=%d ext=%b buf=%b %s\n" vi ext buf (cp_name o)) all_opcodes)
+            [false; true]) [(false, false); (true, true)]) [0; 1; 2; 3; 4; 5]
   | [_; "paths"; path] ->
       let ic = open_in path in
       let i = ref 0 in
